@@ -4,9 +4,19 @@ package main
 // blocks given as raw lines and prints the projected observables.  Every string travels as
 // hex so that arbitrary bytes (multibyte UTF-8, unicode white space) arrive byte-exact.
 //
-// input : {"blocks": [[hexline, ...], ...], "json5": [hextext, ...]}
+// input : {"blocks": [[hexline, ...], ...], "json5": [hextext, ...],
+//          "source": [null | {"joins": [bool, ...], "decl": "func"|"type"|"field"|"const"}, ...]}
 // output: {"blocks": [{err, attrs:[{name,value,props,descr}], frees:[{index,value}], description}],
+//          "parsed": [null | the same observables | {"skip": reason}, ...],
 //          "json5":  [canonical-json or null, ...]}
+//
+// "blocks" is the hand-built path (gast.CommentNode{Text, Index = position}).  "parsed" is the real path
+// for the blocks that have a "source" entry: the comments are written as the doc comment of a
+// declaration in a Go source text (comment i starts a new line unless joins[i], which puts it on the
+// line of comment i-1), the text is parsed with go/parser (ParseComments), the doc comment group and
+// the FileSet are handed to gast.MapDocListToCommentBlock / gast.GetCommentsFromNode, and the holder is
+// built from that block.  "skip" is reported when the parser does not give back the comments that were
+// written (an input the driver should not have sent here), never for anything gleece does.
 //
 // "json5" is the library oracle of DESIGN appendix A.5: the real json5.Unmarshal applied to the
 // exact bytes (into a map[string]any, as parseCommentNode does), null when it reports an error.
@@ -17,18 +27,28 @@ import (
 	"encoding/hex"
 	"encoding/json"
 	"fmt"
+	"go/ast"
+	"go/parser"
+	"go/token"
 	"math"
 	"sort"
 	"strconv"
+	"strings"
 
 	"github.com/gopher-fleece/gleece/v2/core/annotations"
 	"github.com/gopher-fleece/gleece/v2/gast"
 	"github.com/titanous/json5"
 )
 
+type annotSource struct {
+	Joins []bool `json:"joins"`
+	Decl  string `json:"decl"`
+}
+
 type annotIn struct {
-	Blocks [][]string `json:"blocks"`
-	Json5  []string   `json:"json5"`
+	Blocks [][]string     `json:"blocks"`
+	Json5  []string       `json:"json5"`
+	Source []*annotSource `json:"source"`
 }
 
 type annotAttr struct {
@@ -49,11 +69,151 @@ type annotBlockOut struct {
 	Attrs       []annotAttr `json:"attrs"`
 	Frees       []annotFree `json:"frees"`
 	Description string      `json:"description"`
+	Skip        string      `json:"skip,omitempty"`
+	Source      string      `json:"source,omitempty"`
+	Lines       []int       `json:"lines,omitempty"`
 }
 
 type annotOut struct {
-	Blocks []annotBlockOut `json:"blocks"`
-	Json5  []*string       `json:"json5"`
+	Blocks []annotBlockOut  `json:"blocks"`
+	Parsed []*annotBlockOut `json:"parsed"`
+	Json5  []*string        `json:"json5"`
+}
+
+// observeHolder builds the real holder of a comment block and projects it
+func observeHolder(cb gast.CommentBlock) annotBlockOut {
+	holder, err := annotations.NewAnnotationHolder(cb, annotations.CommentSourceRoute)
+	o := annotBlockOut{Attrs: []annotAttr{}, Frees: []annotFree{}}
+	if err != nil {
+		o.Err = true
+		o.ErrMsg = err.Error()
+		return o
+	}
+	for _, a := range holder.Attributes() {
+		o.Attrs = append(o.Attrs, annotAttr{Name: hx(a.Name), Value: hx(a.Value),
+			Props: canonProps(a.Properties), Descr: hx(a.Description)})
+	}
+	for _, c := range holder.NonAttributeComments() {
+		o.Frees = append(o.Frees, annotFree{Index: c.Index, Value: hx(c.Value)})
+	}
+	o.Description = hx(holder.GetDescription())
+	return o
+}
+
+// parsedBlock writes the comments as the doc comment of a declaration, parses the text and maps the
+// doc comment group with gleece's own gast functions.
+func parsedBlock(lines []string, src *annotSource) annotBlockOut {
+	var sb strings.Builder
+	sb.WriteString("package verifdoc\n\ntype Anchor struct{}\n\n")
+	indent := ""
+	switch src.Decl {
+	case "field":
+		sb.WriteString("type Holder struct {\n\tFirst int\n\n")
+		indent = "\t"
+	case "const":
+		sb.WriteString("const (\n\tFirst = 0\n\n")
+		indent = "\t"
+	}
+	for i, l := range lines {
+		if i > 0 {
+			if i < len(src.Joins) && src.Joins[i] {
+				sb.WriteString(" ")
+			} else {
+				sb.WriteString("\n" + indent)
+			}
+		} else {
+			sb.WriteString(indent)
+		}
+		sb.WriteString(l)
+	}
+	if len(lines) > 0 {
+		sb.WriteString("\n")
+	}
+	switch src.Decl {
+	case "field":
+		sb.WriteString("\tDocumented string\n}\n")
+	case "const":
+		sb.WriteString("\tDocumented = 1\n)\n")
+	case "type":
+		sb.WriteString("type Documented struct{ A int }\n")
+	default:
+		sb.WriteString("func (a Anchor) Documented(x int) (string, error) { return \"\", nil }\n")
+	}
+	text := sb.String()
+	skip := func(why string) annotBlockOut {
+		return annotBlockOut{Attrs: []annotAttr{}, Frees: []annotFree{}, Skip: why, Source: hx(text)}
+	}
+
+	fset := token.NewFileSet()
+	// a few throw-away files first: the base offset of the file in the set is not 1
+	fset.AddFile("other.go", -1, 977)
+	file, err := parser.ParseFile(fset, "verif.controller.go", text, parser.ParseComments|parser.SkipObjectResolution)
+	if err != nil {
+		return skip("go/parser: " + err.Error())
+	}
+	var node ast.Node
+	var doc *ast.CommentGroup
+	ast.Inspect(file, func(n ast.Node) bool {
+		switch d := n.(type) {
+		case *ast.FuncDecl:
+			if d.Name.Name == "Documented" {
+				node, doc = d, d.Doc
+			}
+		case *ast.GenDecl:
+			if len(d.Specs) == 1 {
+				if ts, ok := d.Specs[0].(*ast.TypeSpec); ok && ts.Name.Name == "Documented" {
+					node, doc = d, d.Doc
+				}
+			}
+		case *ast.Field:
+			if len(d.Names) == 1 && d.Names[0].Name == "Documented" {
+				node, doc = d, d.Doc
+			}
+		case *ast.ValueSpec:
+			if len(d.Names) == 1 && d.Names[0].Name == "Documented" {
+				node, doc = d, d.Doc
+			}
+		}
+		return true
+	})
+	if node == nil {
+		return skip("declaration not found")
+	}
+	var list []*ast.Comment
+	if doc != nil {
+		list = doc.List
+	}
+	if len(list) != len(lines) {
+		return skip(fmt.Sprintf("the doc comment has %d comments, %d were written", len(list), len(lines)))
+	}
+	for i, c := range list {
+		if c.Text != lines[i] {
+			return skip(fmt.Sprintf("comment %d comes back as %q, written %q", i, c.Text, lines[i]))
+		}
+	}
+	// the two ways gleece's visitors obtain the block
+	var cb gast.CommentBlock
+	if src.Decl == "func" || src.Decl == "" {
+		if doc == nil {
+			cb = gast.GetCommentsFromNode(node, fset)
+		} else {
+			cb = gast.MapDocListToCommentBlock(list, fset) // route.visitor.go
+		}
+	} else {
+		cb = gast.GetCommentsFromNode(node, fset) // enum.visitor.go; base.go for type declarations
+	}
+	if len(cb.Comments) != len(lines) {
+		o := observeHolder(cb)
+		o.ErrMsg = fmt.Sprintf("the comment block has %d comments, the doc comment %d; %s", len(cb.Comments), len(lines), o.ErrMsg)
+		o.Source = hx(text)
+		return o
+	}
+	o := observeHolder(cb)
+	o.Source = hx(text)
+	for _, c := range list {
+		o.Lines = append(o.Lines, fset.Position(c.Pos()).Line)
+	}
+	return o
 }
 
 func hx(s string) string { return hex.EncodeToString([]byte(s)) }
@@ -132,14 +292,16 @@ func init() {
 		if err := readJSON(in, &input); err != nil {
 			return err
 		}
-		res := annotOut{Blocks: make([]annotBlockOut, 0, len(input.Blocks)), Json5: make([]*string, 0, len(input.Json5))}
-		for _, block := range input.Blocks {
+		res := annotOut{Blocks: make([]annotBlockOut, 0, len(input.Blocks)), Parsed: make([]*annotBlockOut, 0, len(input.Blocks)), Json5: make([]*string, 0, len(input.Json5))}
+		for bi, block := range input.Blocks {
 			nodes := make([]gast.CommentNode, len(block))
+			lines := make([]string, len(block))
 			for i, h := range block {
 				raw, err := hex.DecodeString(h)
 				if err != nil {
 					return err
 				}
+				lines[i] = string(raw)
 				// what gast.MapDocListToCommentBlock produces: Text = ast.Comment.Text, Index = position
 				nodes[i] = gast.CommentNode{
 					Text:     string(raw),
@@ -148,20 +310,12 @@ func init() {
 				}
 			}
 			cb := gast.CommentBlock{Comments: nodes, FileName: "verif.go"}
-			holder, err := annotations.NewAnnotationHolder(cb, annotations.CommentSourceRoute)
-			o := annotBlockOut{Attrs: []annotAttr{}, Frees: []annotFree{}}
-			if err != nil {
-				o.Err = true
-				o.ErrMsg = err.Error()
+			o := observeHolder(cb)
+			if bi < len(input.Source) && input.Source[bi] != nil {
+				p := parsedBlock(lines, input.Source[bi])
+				res.Parsed = append(res.Parsed, &p)
 			} else {
-				for _, a := range holder.Attributes() {
-					o.Attrs = append(o.Attrs, annotAttr{Name: hx(a.Name), Value: hx(a.Value),
-						Props: canonProps(a.Properties), Descr: hx(a.Description)})
-				}
-				for _, c := range holder.NonAttributeComments() {
-					o.Frees = append(o.Frees, annotFree{Index: c.Index, Value: hx(c.Value)})
-				}
-				o.Description = hx(holder.GetDescription())
+				res.Parsed = append(res.Parsed, nil)
 			}
 			res.Blocks = append(res.Blocks, o)
 		}
